@@ -447,3 +447,13 @@ for _pid, _names in {"C14": ["TestVF_C14Seq", "TestVF_C14"], "C17": ["TestVF_C17
     for _t in PROPS[_pid]["tests"]:
         if _t["name"] in _names:
             _t["confirm_alone"] = True
+
+# ---- after round 8 of seeded changes (something ends, fails or is slow at an unusual moment) ----
+PROPS["C18"]["tests"].append(dict(name="TestVF_C18LateAck", rapid=False, env=dict(VERIF_CASE_LIMIT=300),
+                                  quick=dict(shards=10, timeout=600), thorough=dict(shards=16, timeout=3000, env=dict(VERIF_C18_LONG=1))))
+PROPS["C18"]["level_text"] += (" TestVF_C18LateAck: an upload whose server acknowledges one chunk 2.3 s late (the sender reduces its chunk size and cuts the buffers it had "
+                               "queued into pieces); the pause is set from inside the write of the N-th file data line after that, N = 1..10 (16): until the resume not one "
+                               "more file data line may be written, and the transfer succeeds.")
+for _t in PROPS["C08"]["tests"]:
+    if _t["name"] == "TestVF_C08":
+        _t["confirm_alone"] = True
